@@ -1,3 +1,4 @@
+import RsMatterVerif.Generated.Consts
 import RsMatterVerif.Model.Codec.Buf
 /-!
 # Model of `sc.rs` `StatusReport::read` / `write`
@@ -6,7 +7,7 @@ namespace Codec.StatusReport
 open Codec
 
 /-- `GeneralCode` has the discriminants 0..=16 (`FromPrimitive::from_u16`) -/
-def GENERAL_CODE_MAX : Nat := 16
+def GENERAL_CODE_MAX : Nat := Consts.c17GeneralCodeMax
 
 structure Report where
   general : Nat
